@@ -32,6 +32,7 @@ T0 = 1024.0
 PORT = 9001
 _LOG = [None]
 _RUN = [None]
+_BLOCKED = {}          # greenlet -> call id of a request issued while Open() was in progress
 _S = {}
 
 
@@ -210,6 +211,7 @@ class Sock(V.FakeG):
 class Proxy(V._GeventProxy):
   """gevent as seen by the transport modules: virtual sleep/Timeout (inherited) and a spawn that records when
   the spawned function starts to run."""
+  __name__ = 'c08-gevent-proxy'      # not 'gevent': the world must not mistake it for the unpatched module
 
   @staticmethod
   def spawn(fn, *a, **kw):
@@ -273,11 +275,16 @@ def setup(repo):
   from scales.loadbalancer.zookeeper import Endpoint
   from scales.thrift.serializer import MessageSerializer as TSer
   from scales.thriftmux.serializer import MessageSerializer as MSer
-  ss.gsocket = Sock
   px = Proxy()
-  for m in (ts, ms, tms, sa, ob):
-    m.gevent = px
-  ms.Queue = LQueue
+
+  def repatch():
+    # the world (re)binds the virtual primitives in the scales modules whenever one is created: put ours back on top
+    ss.gsocket = Sock
+    for m in (ts, ms, tms, sa, ob):
+      m.gevent = px
+    ms.Queue = LQueue
+  repatch()
+  _S['repatch'] = repatch
 
   # pass-through wrappers around the socket object handed to the transports
   W = vz.VarzSocketWrapper
@@ -319,9 +326,14 @@ def setup(repo):
   prev_wait = sa.AsyncResult.wait
 
   def ar_wait(self, timeout=None):
+    blocking = timeout is None and not self.ready()
     r = prev_wait(self, timeout)
     if timeout is not None:
       emit('arwait', bool(self.successful()))
+    elif blocking:
+      c = _BLOCKED.get(gevent.getcurrent())
+      if c is not None:
+        emit('api', 'req-resume', c)      # a caller that waited for the open result inside AsyncProcessRequest goes on
     return r
   sa.AsyncResult.wait = ar_wait
   prev_get = sa.AsyncResult.get
@@ -378,7 +390,7 @@ def setup(repo):
       if act and run is not None and kind in ('err', 'timeout', 'clienterr'):
         # a re-entrant caller: retries on the same transport, or closes it, from inside the response callback
         if act == 'retry':
-          if run.open_pending():
+          if run.open_pending() and not run.mux:
             emit('api', 'skip', 'req')
           else:
             run.request(self.c + 1000, None, False)
@@ -438,6 +450,7 @@ class Run(object):
     self.mux = case['kind'] == 'mux'
     self.rng = random.Random(case.get('seed', 0))
     self.w = V.World(self.rng, t0=T0, tie=case.get('tie', 'fifo'))
+    _S['repatch']()
     self.ev = []
     _LOG[0] = self.ev
     _RUN[0] = self
@@ -504,6 +517,22 @@ class Run(object):
       S['mser'].Marshal(msg, buf, headers)
     else:
       S['tser'].SerializeThriftCall(msg, buf)
+    if self.mux and self.open_pending():
+      # the caller blocks inside AsyncProcessRequest until the open result is ready: it needs its own greenlet
+      emit('api', 'req', c, dl, 'blocked')
+
+      def blocked():
+        _BLOCKED[gevent.getcurrent()] = c
+        try:
+          self.sink.AsyncProcessRequest(st, msg, buf, headers)
+        except Exception as e:
+          emit('raise', c, type(e).__name__, str(e)[:80])
+        finally:
+          _BLOCKED.pop(gevent.getcurrent(), None)
+        emit('api', 'req-ret', c)
+      g = gevent.spawn(blocked)
+      self.w.greenlets.append(g)
+      return
     emit('api', 'req', c, dl)
     try:
       self.sink.AsyncProcessRequest(st, msg, buf, headers)
@@ -565,8 +594,8 @@ class Run(object):
         c, dl = op[1], op[2]
         if c in self.calls:
           continue
-        if self.open_pending():
-          emit('api', 'skip', 'req')      # the owner only lends a sink whose Open() completed
+        if self.open_pending() and not self.mux:
+          emit('api', 'skip', 'req')      # the pool only lends a serial sink whose Open() completed
         else:
           self.request(c, dl, bool(op[4]) if len(op) > 4 else False, op[5] if len(op) > 5 else None)
           if len(op) < 4 or op[3]:
@@ -619,6 +648,7 @@ class Run(object):
   def close(self):
     _LOG[0] = None
     _RUN[0] = None
+    _BLOCKED.clear()
     try:
       self.w.close()
     except Exception:
